@@ -232,6 +232,20 @@ pull_query_result_tuple = namedtuple("pull_query_result_tuple",
                                       "query_result_class"])
 
 
+def _is_element(node, elem_name):
+    """
+    Return a boolean indicating whether an item of the parsed child list of an
+    IMETHODRESPONSE, METHODRESPONSE or EXPMETHODRESPONSE element is the parsed
+    ERROR, IRETURNVALUE or RETURNVALUE element with the specified name.
+
+    These elements are parsed into a tuple (name, attributes, children), while
+    PARAMVALUE elements are parsed into a tuple (NAME, PARAMTYPE, value), so
+    a PARAMVALUE element whose NAME attribute is the same as one of these
+    element names must not be mistaken for that element.
+    """
+    return node[0] == elem_name and isinstance(node[1], dict)
+
+
 def _to_pretty_xml(xml_item):
     """
     Common function to produce a prettified XML string from an input XML item
@@ -2011,7 +2025,7 @@ class WBEMConnection:  # pylint: disable=too-many-instance-attributes
         # with output parameters.
 
         # Check for failed operation
-        if tup_tree and tup_tree[0][0] == 'ERROR':
+        if tup_tree and _is_element(tup_tree[0], 'ERROR'):
             # The operation failed
             err = tup_tree[0]
             code = int(err[1]['CODE'])
@@ -2029,8 +2043,14 @@ class WBEMConnection:  # pylint: disable=too-many-instance-attributes
         return_value = False
         out_param_names = []
         for child_node in tup_tree:
-            if child_node[0] == 'IRETURNVALUE':
+            if _is_element(child_node, 'IRETURNVALUE'):
                 return_value = True
+            elif _is_element(child_node, 'ERROR'):
+                raise CIMXMLParseError(
+                    _format("Unexpected ERROR child element of "
+                            "IMETHODRESPONSE for operation {0} (allowed only "
+                            "as the first child element)", methodname),
+                    conn_id=self.conn_id)
             else:
                 # The PARAMVALUE nodes are already unpacked
                 out_param_names.append(child_node[0])
@@ -2298,7 +2318,7 @@ class WBEMConnection:  # pylint: disable=too-many-instance-attributes
         # At this point we have an optional RETURNVALUE and zero or
         # more PARAMVALUE elements representing output parameters.
 
-        if tup_tree and tup_tree[0][0] == 'ERROR':
+        if tup_tree and _is_element(tup_tree[0], 'ERROR'):
             # Operation failed
             err = tup_tree[0]
             code = int(err[1]['CODE'])
@@ -2460,7 +2480,7 @@ class WBEMConnection:  # pylint: disable=too-many-instance-attributes
         # return type.
 
         # Check for failed operation
-        if tup_tree and tup_tree[0][0] == 'ERROR':
+        if tup_tree and _is_element(tup_tree[0], 'ERROR'):
             # The operation failed
             err = tup_tree[0]
             code = int(err[1]['CODE'])
@@ -2811,7 +2831,7 @@ class WBEMConnection:  # pylint: disable=too-many-instance-attributes
                 if isinstance(p[2], str):
                     enumeration_context = p[2]
 
-            elif p[0] == "IRETURNVALUE":
+            elif _is_element(p, 'IRETURNVALUE'):
                 rtn_objects = p[2]
 
         if not end_of_sequence_found and not enumeration_context_found:
